@@ -533,3 +533,18 @@ def run(ctx):
                   "output '%s' declares %d rows but names rows %s" % (o, declared_rows[o], sorted(prf_rows.get(o, ()))))
     ctx.note("outputs: registered %s; declared %s" % ({o: sorted(v) for o, v in registered.items()},
                                                      {o: sorted(v) for o, v in declared.items()}))
+
+
+_run_base = run
+
+
+def run(ctx):
+    _run_base(ctx)
+    prog = ctx.prog
+    ctx.rule("R13.7", "the rows come in the documented order: the comparators that order processes, threads, CPUs and "
+             "looms are ascending in their key (C15 R15.3's evaluation of by_pid, by_rank, by_tid, by_phyid, "
+             "cmp_loom_rank)")
+    from rules import round3
+    round3.share(ctx, "R13.7", "C15", lambda i_: i_["rule"] == "R15.3" and (i_["inst"].split(":")[0] in
+                 ("by_pid", "by_rank", "by_tid", "by_phyid", "cmp_loom_rank", "cmp_loom_id")), "row-order:",
+                 "the .row file and the row numbers no longer follow the documented order", 10)
